@@ -10,24 +10,24 @@ CHECKS = {}
 # seeded changes, DESIGN.md 5.2 / 8); every one is exhaustive inside its menu
 ADDED = {
  "C01": "N bytes before close x read(max=k,min=k); TLS 1.3 padding callbacks installed on the record layer (padded records witnessed); flat cases on connections resumed by ID / ticket under record limits.",
- "C02": "unprotected records of nine kinds at every position and after KeyUpdate; long-padding wrong-MAC CBC forgeries; every TLS 1.0-1.2 family again after a ClientHello that offered TLS 1.3 early data.",
+ "C02": "unprotected records of nine kinds at every position and after KeyUpdate; long-padding wrong-MAC CBC forgeries; every TLS 1.0-1.2 family (incl. NULL / RC4 / CCM_8) again after a ClientHello that offered TLS 1.3 early data; every TLS 1.3 suite again after a HelloRetryRequest.",
  "C03": "key-size values excluding the fixtures; PSK mode policy; resumed connections (full views); flavours with unrequested client credentials, anonymous DH with disjoint groups, DHE policy, mixed-case server names.",
  "C04": "downgrade sentinel tables (client and server, also resumed); ticket scenarios; key-exchange group in the view with HRR-forcing scenarios; fallback retries that offer a held session.",
  "C05": "ticket identity; degenerate SRP values; universal-forgery signature constants; delegated credentials (14 shapes x leaf x key); SRP name without SRP exchange; proof sites with the hash forced; identical proofs across handshakes.",
  "C06": "passive tap with a consumed-prefix oracle; 16 insert kinds, also outside the transcript; fragments across key changes; messages after completion; warning alerts in place of messages; adjacent double skips; a message split around ChangeCipherSpec; PSK-declined flavour.",
  "C07": "HelloRetryRequest interop (group x hello shape x resumption).",
- "C08": "records after the handshake; DER-tree certificate mutations with OID replacement; bombs with declared length 0; bodiless extensions x legacy versions; huge DH primes; PHA requests; alert-on-the-wire oracle and keep-socket pass; delegated credentials; key-exchange lies under a good signature; several hello extensions changed together; damaged resumed connections with the session cache inspected.",
+ "C08": "records after the handshake; DER-tree certificate mutations with OID replacement; bombs with declared length 0; bodiless extensions x legacy versions; huge DH primes; PHA requests; alert-on-the-wire oracle and keep-socket pass; delegated credentials; key-exchange lies under a good signature; several hello extensions changed together; damaged resumed connections with the session cache inspected; CertificateVerify relabelled with schemes of other key types; certificates on curves without a signature scheme; TLS 1.3 Certificate cases with compression off, unexecuted cases counted.",
  "C09": "TLS 1.3 record keys over KeyUpdate generations; live TLS 1.3 key schedule and live TLS <= 1.2 master secret (EMS, client auth) against captured transcripts.",
- "C10": "PSS padding strings; DSA (r,s) grid; digest shapes vs the openssl CLI; warm-key faults; odd RSA moduli; encoding of the FFDH secret per version.",
+ "C10": "PSS padding strings; DSA (r,s) grid; digest shapes vs the openssl CLI; warm-key faults; odd RSA moduli; encoding of the FFDH secret per version; RSA signature with its leading zero octet dropped.",
  "C11": "raw ciphertext classes on the wire.",
  "C12": "long bodies around the scan windows.",
- "C13": "19 offer variants (other suite / ALPN / server name, copies, renamed server name); both-ends view comparison on every connection; wrapped-cache initial state; ticket + client-auth mechanism; thorough depth 4 on three mechanisms, 3 on the others.",
+ "C13": "19 offer variants (other suite / ALPN / server name, copies, renamed server name); both-ends view comparison on every connection; wrapped-cache initial state; ticket + client-auth mechanism; offers from a client without a certificate; thorough depth 4 on three mechanisms, 3 on the others.",
  "C14": "small-record flavours; sender record sizes; coalescing; AsyncStateMachine under four regimes and with full-record messages; consumers that drop the generator at the first result.",
- "C15": "2^24-byte bodies; parse-write-assign-write histories of every extension class; ticket payloads with chains of 0-3 certificates; failed corpus handshakes are violations.",
- "C16": "PHA proof corruptions; heartbeat without negotiation; heartbeat request + data + orderly close of the socket.",
- "C17": "multi-record reads; dead-transport oracle; peer abort plus fault; alerts while closing; two connections sharing a session; program variants with KeyUpdate, heartbeat request and post-handshake authentication request.",
+ "C15": "2^24-byte bodies; parse-write-assign-write histories of every extension class; ticket payloads with chains of 0-3 certificates; failed corpus handshakes are violations; SSLv2-format ClientHello.",
+ "C16": "PHA proof corruptions; heartbeat without negotiation; heartbeat request + data + orderly close of the socket; heartbeat messages at the record size (requester- and responder-limited).",
+ "C17": "multi-record reads; dead-transport oracle; peer abort plus fault; alerts while closing; two connections sharing a session; program variants with KeyUpdate, heartbeat request and post-handshake authentication request; transport inspected after alerts during the handshake.",
  "C18": "clock-skew thread bodies with a recorded-age oracle; VerifierDB on disk (dbm.dumb in the schedule); thorough: bound 3 on the quick set, 2 on the wider sets.",
- "C19": "two changes on one side for every credential; 133 bytes each way on every demanded connection; client certificates over record_size_limit pairs; out-of-domain versions / dc_sig_algs; versions in the connection menus with a model of version negotiation and the downgrade sentinel; second base point (both sides limited to TLS 1.2); DSA servers.",
+ "C19": "two changes on one side for every credential; 133 bytes each way on every demanded connection; client certificates over record_size_limit pairs; out-of-domain versions / dc_sig_algs; versions in the connection menus with a model of version negotiation and the downgrade sentinel; second base point (both sides limited to TLS 1.2); DSA servers; ECDSA client certificates over the signature dimensions; external PSK identity lists.",
  "C20": "KeyUpdate in the witnessed traffic; multi-credential servers; a lying server with a key of another type than the suite names; sessions offered across versions with every ServerHello checked.",
 }
 def chk(pid, cat, text, note, technique, ref):
